@@ -88,6 +88,35 @@ def rand_data(rnd):
     return ("E", rnd.choice(["empty-object-array", "empty-datetime-array"]))
 
 
+def tcode(d):
+    """data type class of a data description where it is unambiguous (typed numpy array, non-empty strings, datetimes)"""
+    if d[0] == "K":
+        return ("K", d[1])
+    if d[0] == "S" and d[1]:
+        return ("S",)
+    if d[0] == "D" and d[1]:
+        return ("D",)      # an empty datetime64 array carries no TDMS type (Void), like an empty object array
+    return None
+
+
+def type_change(prog):
+    """None, "in-session" (a channel gets two data types within one writer session: write_segment must raise) or "across"
+    (only across sessions: the writer cannot know)"""
+    glob, out = {}, None
+    for sess in prog:
+        local = {}
+        for seg in sess:
+            for ob in seg:
+                if ob[0] != "C" or tcode(ob[3]) is None:
+                    continue
+                key, t = (ob[1], ob[2]), tcode(ob[3])
+                if local.setdefault(key, t) != t:
+                    return "in-session"
+                if glob.setdefault(key, t) != t:
+                    out = "across"
+    return out
+
+
 def draw(rnd, max_sessions=3, max_segments=4):
     groups = rnd.sample(NAMES, rnd.randint(1, 2))
     chans = []
@@ -96,6 +125,7 @@ def draw(rnd, max_sessions=3, max_segments=4):
         if gc not in chans:
             chans.append(gc)
     chan_data_kind = {}
+    chan_typed = set()
     prog = []
     for _ in range(rnd.randint(1, max_sessions)):
         sess = []
@@ -117,6 +147,12 @@ def draw(rnd, max_sessions=3, max_segments=4):
                         chan_data_kind[gc] = ("K", d[1])
                     else:
                         chan_data_kind[gc] = (d[0],)
+                elif chan_data_kind[gc][0] in "KSD" and gc in chan_typed and rnd.random() < 0.04:
+                    # (rarely) the same channel with another data type: the writer must refuse it within a session
+                    kind2 = rnd.choice([k for k in KINDS if ("K", k) != chan_data_kind[gc][:2]])
+                    d = rnd.choice([("K", kind2, rand_array(rnd, kind2, rnd.choice([0, 1, 3])))] +
+                                   ([("S", ["x", "yz"], "list")] if chan_data_kind[gc][0] != "S" else []) +
+                                   ([("D", [rand_micros(rnd)], "datetime64-array")] if chan_data_kind[gc][0] != "D" else []))
                 else:
                     ck = chan_data_kind[gc]
                     n = rnd.choice([0, 1, 2, 4])
@@ -130,6 +166,8 @@ def draw(rnd, max_sessions=3, max_segments=4):
                         d = ("L", list(ck[1]))
                     else:
                         d = ("E", "empty-object-array")
+                if tcode(d) is not None:
+                    chan_typed.add(gc)       # the channel now has a data type in the file
                 seg.append(("C", gc[0], gc[1], d, rand_props(rnd)))
             if rnd.random() < 0.2:
                 rnd.shuffle(seg)
